@@ -150,7 +150,7 @@ def run(tier):
     c.assumptions += ['bamtagmultiome.sleep is replaced by a no-op in the driver (only removes the 5 s wait before temp-folder cleanup)',
                       'samtools is not installed: merge_bams / replace_bam_header take their pysam branches',
                       'the mate-pairing library (pysamiterators) is taken as given: secondary/supplementary records are outside the '
-                      'claim, and "both mates present" means both mates mapped on the same contig (delivered as one fragment)',
+                      'claim; "both mates present" = both mates are records of the input file (also half-mapped, cross-contig, unmapped pairs)',
                       '--no_rejects is judged for nla and chic (qflag forces yield_invalid and defines no invalid fragments)',
                       'read names: inputs carry SM/RX/... tags already, so the query-name flagger does not rewrite names (C04 covers the codec)']
     runs = [e for e in events if e['ev'] == 'run']
